@@ -229,6 +229,48 @@ def _r16b(rep):
     sv = core.find_def(API, "Phonopy.save")
     t = core.src(sv)
     rep.instance("R16b", API, "Phonopy.save", "PhonopyYaml(settings=…).set_phonon_info(self); str(…) written", "PhonopyYaml(settings=_settings)" in t and "set_phonon_info(self)" in t and t.count("w.write(str(phpy_yaml))") == 2, "save() no longer writes the yaml of this object on both the plain and the compressed path", line=sv.lineno)
+    # save() only ever widens what the caller asked for: every write into the copied settings stores the constant True,
+    # and it is not reachable when the caller put an explicit False under that key
+    muts = []
+    for n in ast.walk(sv):
+        if isinstance(n, ast.Assign) and isinstance(n.targets[0], ast.Subscript) and core.src(n.targets[0].value) == "_settings" and isinstance(n.targets[0].slice, ast.Constant):
+            muts.append((n, n.targets[0].slice.value, n.value))
+        if isinstance(n, ast.Expr) and isinstance(n.value, ast.Call) and core.src(n.value.func) in ("_settings.update", "_settings.setdefault"):
+            c = n.value
+            if core.src(c.func) == "_settings.update" and c.args and isinstance(c.args[0], ast.Dict):
+                for k, v in zip(c.args[0].keys, c.args[0].values):
+                    if isinstance(k, ast.Constant):
+                        muts.append((n, k.value, v))
+            elif core.src(c.func) == "_settings.update":
+                muts.append((n, "*", None))
+        if isinstance(n, ast.AugAssign) and core.src(n.target).startswith("_settings"):
+            muts.append((n, "*", None))
+    if not muts:
+        raise AnalysisError("R16b: save() no longer adjusts the dumper settings (anchor vanished)")
+    parents = {c: p for p in ast.walk(sv) for c in ast.iter_child_nodes(p)}
+    for node, key, val in muts:
+        only_true = isinstance(val, ast.Constant) and val.value is True
+        rep.instance("R16b", API, "Phonopy.save", f"settings['{key}'] is only ever set to True by save()", only_true,
+                     f"save() stores {core.norm(core.src(val), 50) if val is not None else 'a computed mapping'} under '{key}' in the caller's settings: an item the caller asked for explicitly (settings={{'{key}': True}}) can be switched off, so the saved file lacks data of the object and the reload differs", line=node.lineno)
+        if not only_true:
+            continue
+        # explicit False is respected: the write sits in the else-arm of `_settings.get(key) is False` (or under `... is not False` / `key not in`)
+        guarded = False
+        cur = node
+        while cur in parents:
+            par = parents[cur]
+            if isinstance(par, ast.If):
+                t = core.norm(core.src(par.test))
+                in_else = any(cur is x or cur in set(ast.walk(x)) for x in par.orelse)
+                if in_else and f"_settings.get('{key}') is False" in t.replace('"', "'"):
+                    guarded = True
+                if not in_else and (f"_settings.get('{key}') is not False" in t.replace('"', "'") or f"'{key}' not in _settings" in t.replace('"', "'") or f"'{key}' not in settings" in t.replace('"', "'")):
+                    guarded = True
+            cur = par
+        if guarded:
+            rep.instance("R16b", API, "Phonopy.save", f"the write of settings['{key}'] = True is not reached when the caller passed False", True, "", line=node.lineno)
+        else:
+            rep.unknown(f"R16b Phonopy.save: guard protecting an explicit settings['{key}'] = False not recognised")
     # settings keys used by save and the dumper are known to the dumper defaults
     dd = None
     for n in ast.walk(tree):
@@ -322,6 +364,7 @@ def selftest():
     n = lambda name, file, old, new, **kw: V.append(dict(name=name, kind="neutral", file=file, old=old, new=new, **kw))
     b("dumper renames dielectric key", YML, 'lines.append("  dielectric_constant:")', 'lines.append("  dielectric_tensor:")', "R16a", "dielectric_constant")
     b("loader looks for 'forceconstants'", YML, 'self._yaml["force_constants"]', 'self._yaml["forceconstants"]', "R16a", "force", nth=0)
+    b("save overrides the caller's explicit request", API, '        if _settings.get("force_constants") is False:\n            pass\n        elif not forces_in_dataset(self.dataset) and self.force_constants is not None:\n            _settings.update({"force_constants": True})', '        if _settings.get("force_constants", True) and self.force_constants is not None:\n            _settings["force_constants"] = not forces_in_dataset(self.dataset)', "R16b", "only ever set to True")
     b("save takes primitive matrix from the wrong attribute", YML, "self._data.primitive_matrix = phonopy.primitive_matrix", "self._data.primitive_matrix = phonopy.supercell_matrix", "R16b", "primitive_matrix")
     b("FORCE_SETS columns fused again", FIO, 'lines.append(" ".join(["%15.8f"] * 6) % (tuple(d) + tuple(f)))', 'lines.append(("%15.8f" * 6) % (tuple(d) + tuple(f)))', "R16c", "_get_FORCE_SETS_lines_type2")
     b("type-1 forces written fused", FIO, '"%15.10f %15.10f %15.10f" % tuple(f)', '"%15.10f%15.10f%15.10f" % tuple(f)', "R16c", "type1")
